@@ -7,6 +7,7 @@ import (
 	"reflect"
 	"strconv"
 	"strings"
+	"sync"
 	"testing"
 	"time"
 	"unsafe"
@@ -34,6 +35,15 @@ func (l *c32Log) Debug(msg string, _ ...zap.Field) {
 func c32Handler(m *MessageBuffer) func() {
 	f := reflect.ValueOf(m.pendingTimer).Elem().FieldByName("handler")
 	return *(*func())(unsafe.Pointer(f.UnsafeAddr()))
+}
+
+// c32Armed reads the real timer's state: SetTimeoutIn sets shouldExecute, Cancel clears it.
+func c32Armed(m *MessageBuffer) bool {
+	t := reflect.ValueOf(m.pendingTimer).Elem()
+	lk := (*sync.Mutex)(unsafe.Pointer(t.FieldByName("lock").UnsafeAddr()))
+	lk.Lock()
+	defer lk.Unlock()
+	return *(*bool)(unsafe.Pointer(t.FieldByName("shouldExecute").UnsafeAddr()))
 }
 
 func c32Msg(n, seed int) []byte {
@@ -156,10 +166,16 @@ func TestVerifC32(t *testing.T) {
 			}
 			r.Count(fmt.Sprintf("send:%s", res))
 		case len(f) == 1 && f[0] == "fire":
+			// the timer (1h timeout here) calls the callback only while armed, and once
+			if !c32Armed(m) {
+				res = "notarmed"
+				break
+			}
 			m.l.Lock()
 			cl := m.closed
 			m.l.Unlock()
 			s.fire()
+			m.pendingTimer.Cancel() // one-shot: a fired timer stays quiet until the next SetTimeoutIn
 			res = "ok"
 			if cl {
 				res = "closed"
@@ -206,8 +222,9 @@ func TestVerifC32(t *testing.T) {
 			continue
 		}
 		m.l.Lock()
-		ps, np := m.pendingSize, len(m.pending)
+		ps, np, closed := m.pendingSize, len(m.pending), m.closed
 		m.l.Unlock()
+		armed := c32Armed(m)
 		fl := "none"
 		switch {
 		case s.log.dropped > d0:
@@ -217,7 +234,16 @@ func TestVerifC32(t *testing.T) {
 			fl = "enq"
 		}
 		r.Count("flush:" + f[0] + ":" + fl)
-		r.Emit(l, fmt.Sprintf("%s ps=%d np=%d q=%d fl=%s", res, ps, np, len(m.Queue), fl))
+		arm := 0
+		if armed {
+			arm = 1
+		}
+		r.Emit(l, fmt.Sprintf("%s ps=%d np=%d q=%d fl=%s arm=%d", res, ps, np, len(m.Queue), fl, arm))
+		// oracle: an accepted message must not depend on a later Send/Close to get out
+		if np > 0 && !closed && !armed {
+			r.ViolationAt("pending-without-armed-timer", s.from, r.Line(),
+				"%d accepted message(s) pending but the flush timer is not armed: they are emitted only by a later overflow or Close", np)
+		}
 		if fl == "drop" && q0 < cap(m.Queue) {
 			r.ViolationAt("dropped-although-queue-not-full", s.from, r.Line(), "queue %d/%d", q0, cap(m.Queue))
 		}
@@ -275,6 +301,20 @@ func c32Generate(r *verifh.Run) []string {
 	add("send 5 2")
 	add("fire")
 	add("recv")
+	drain()
+	// ... overflow flush followed by silence: the message that started the new batch must still
+	// be covered by an armed timer (seeded change C32-m2 left it stranded)
+	add("new 4 20")
+	add("send 8 1")
+	add("send 8 2")
+	add("fire")
+	add("recv")
+	add("recv")
+	add("fire")
+	add("send 8 3")
+	add("send 3 4")
+	add("send 8 5")
+	add("fire")
 	drain()
 	// ... a message of exactly maxSize, and the varint boundary 127/128
 	add("new 4 10")
